@@ -164,15 +164,20 @@ BREAKING += [
     {"id": "C20-isi-shift", "props": ["C20"], "edits": [E("core/math.py", "(nz - 1) * step_time", "nz * step_time")]},
     {"id": "C07-dt-setter-order", "props": ["C07", "C14"], "edits": [E("observe/reducers/trace.py", "        FoldReducer.dt.fset(self, value)\n        self.decay = exp(-self.dt / self.time_constant)", "        self.decay = exp(-self.dt / self.time_constant)\n        FoldReducer.dt.fset(self, value)", 6)]},
     {"id": "C07-clear-default-fill", "props": ["C07"], "edits": [E("observe/reducers/base.py", "self.data_.reset(self.__fill)", "self.data_.reset()")]},
-    {"id": "C06-reset-falsy", "props": ["C06", "C01"], "edits": [E(INFRA, "        if fill is not None:\n            if not self._ignore(data):", "        if fill:\n            if not self._ignore(data):")]},
-    {"id": "C06-conv-selector-order", "props": ["C06", "C05"], "edits": [E("neural/connections/conv.py", '"f c h w -> 1 (c h w) 1 f"', '"f c h w -> 1 (h w c) 1 f"')]},
-    {"id": "C05-updater-bypass", "props": ["C05", "C10"], "edits": [E("neural/modeling.py", "                setattr(module, p, self.updates_[p](getattr(module, p), **kwargs))", "                param = getattr(module, p)\n                param.data = self.updates_[p](param, **kwargs)")]},
+    {"id": "C06-reset-falsy", "props": ["C06", "C01"], "edits": [E(INFRA, "        if fill is not None:\n            # perform fill if not ignored", "        if fill:\n            # perform fill if not ignored")]},
+    {"id": "C06-conv-selector-order", "props": ["C06"], "silent": ["C05"], "edits": [E("neural/connections/conv.py", '"f c h w -> 1 (c h w) 1 f"', '"f c h w -> 1 (h w c) 1 f"')]},
+    {"id": "C05-updater-bypass", "props": ["C05"], "silent": ["C10"], "edits": [E("neural/modeling.py", "                setattr(module, p, self.updates_[p](getattr(module, p), **kwargs))", "                param = getattr(module, p)\n                param.data = self.updates_[p](param, **kwargs)")]},
     {"id": "C09-guard-wrong-part", "props": ["C09"], "edits": [E("learn/trainers/three_factor_stdp.py", "state.batchreduce(dneg, 0) if dneg.numel() else None", "state.batchreduce(dneg, 0) if dpos.numel() else None", 2)]},
+    {"id": "C11-trainer-default-reduction", "props": ["C11"], "silent": ["C09"], "edits": [E("learn/trainers/two_factor_stdp.py", "            dpre = state.batchreduce(\n                ein.einsum(i_pre, x_post,", "            dpre = self.batchreduce(\n                ein.einsum(i_pre, x_post,", 2)]},
+    {"id": "C18-delay-cached-at-registration", "props": ["C18"], "silent": ["C06"], "edits": [
+        E("learn/trainers/delay_adj_two_factor_stdp.py", "        # common and derived arguments\n        monitor_kwargs = {", "        state.delay = cell.connection.delay.unsqueeze(-1)\n\n        # common and derived arguments\n        monitor_kwargs = {", 2),
+        E("learn/trainers/delay_adj_two_factor_stdp.py", "t_delta = t_pre - t_post - cell.connection.delay.unsqueeze(-1)", "t_delta = t_pre - t_post - state.delay", 2)]},
 ]
 
 BENIGN = [
     {"id": "B-unparse-roundtrip-whole-tree", "transform": "unparse_all"},
     {"id": "B-rename-all-locals", "transform": "rename_locals", "suffix": "_r"},
+    {"id": "B-alif-rebinding-flag", "edits": [E("neural/neurons/linear.py", "        if adapt or (adapt is None and self.training):", "        adapt = adapt or (adapt is None and self.training)\n        if adapt:", 2)]},
     {"id": "B-helper-commuted", "edits": [E(INFRA, "return (pointer - int(offset)) % size", "return (-int(offset) + pointer) % size")]},
     {"id": "B-push-temp", "edits": [E(INFRA, "        self.write(obs, offset=0, inplace=inplace)\n        self.incr(1)", "        zero = 0\n        self.write(obs, offset=0, inplace=inplace)\n        _ = self.incr(1)")]},
     {"id": "B-lif-extract-temp", "edits": [E("neural/functional/neuron_dynamics.py", "    return rest_v + (voltages - rest_v - extvoltage) * decay + extvoltage", "    relaxed = (voltages - rest_v - extvoltage) * decay\n    return extvoltage + rest_v + relaxed")]},
